@@ -278,5 +278,13 @@ func (c21) Execute(sc *engine.Scenario) *engine.Result {
 		res.Sig(fmt.Sprintf("lfsr/%d", period))
 	}
 	res.Cycles = m.N
+	{
+		dg := engine.NewDigest()
+		w := m.APU.VerifWave()
+		dg.Bytes([]byte{w.Duty1, w.Duty2, w.Pos3})
+		dg.U16(w.LFSR)
+		dg.U64(m.N)
+		res.Digest = uint64(dg)
+	}
 	return res
 }
